@@ -7,6 +7,8 @@ From DH Require Import Lib.CheckLib Model.Store Model.Refs Model.Query Model.Gra
 Import ListNotations.
 Open Scope Z_scope.
 
+Definition now_at : Z := 4611686018427387904.   (* the driver's "no At": 1 << 62 *)
+
 Definition body := (list (Z * content) * bool)%type.      (* partials per dataset (dataset order), hasDeleted *)
 Definition rrow := (Z * Z * Z * body)%type.               (* (start, predicate, related), body of the related entity *)
 
@@ -82,7 +84,9 @@ Definition agree (v : pvariant) (c : pcase) : bool := agree_prun v (pc_ds c) rst
     the same probe returned when it was asked right after the write it is pinned to *)
 Definition spec_pop_ok (o : pop) : bool :=
   match o with
-  | PGet _ _ _ o_found o_body (Some (e_found, e_body)) => Bool.eqb o_found e_found && (negb o_found || body_eqb o_body e_body)
+  | PGet _ _ _ o_found o_body (Some (e_found, e_body)) =>
+    (* "no such URI yet" and "no version yet" are the same answer: nothing *)
+    body_eqb (if o_found then o_body else ([], false)) (if e_found then e_body else ([], false))
   | PRel _ _ _ _ _ _ (Some ops) (Some eps) => pages_eqv ops eps
   | PRel _ _ _ _ _ _ None (Some _) => false
   | _ => true
